@@ -1,12 +1,19 @@
 package props
 
 import (
-	"unicode/utf8"
+	"fmt"
 	"regexp"
 	"strconv"
 	"strings"
+	"sync/atomic"
+	"unicode/utf8"
 
+	"github.com/vektah/gqlparser/v2"
+	"github.com/vektah/gqlparser/v2/ast"
+	"github.com/vektah/gqlparser/v2/gqlerror"
 	"github.com/vektah/gqlparser/v2/lexer"
+	"github.com/vektah/gqlparser/v2/parser"
+	"github.com/vektah/gqlparser/v2/validator"
 
 	"verifharness/internal/core"
 	"verifharness/internal/gen"
@@ -89,6 +96,23 @@ func lexPositionsTruthful(dump, input string, knownStringCol bool) string {
 	return ""
 }
 
+// locationProblem: a location attached to an error must be the line and column of the start of a
+// token of the file the error names (String tokens: column+1 where F-P1 is recorded).
+func locationProblem(src string, line, col int, knownStringCol bool) string {
+	lcs := LineCols(src)
+	starts, _ := TokenStarts(src)
+	for off, k := range starts {
+		if off < 0 || off >= len(lcs) {
+			continue
+		}
+		want := lcs[off]
+		if want.Line == line && (want.Col == col || (knownStringCol && k == lexer.String && want.Col+1 == col)) {
+			return ""
+		}
+	}
+	return fmt.Sprintf("location %d:%d is not the line and column of a token start of the file the error names", line, col)
+}
+
 func knownFlag(c *core.Ctx, id string) bool {
 	for _, f := range c.Known {
 		if f.ID == id && f.Status == "known" {
@@ -160,6 +184,42 @@ func runC04(c *core.Ctx) {
 		c.Seen(strings.Contains(k.in, "\n") || strings.Contains(k.in, "\r"), []byte(k.in))
 	})
 	_ = nerr
+	// several sources in one call: every position names the source it came from
+	var stexts []string
+	for _, k := range cases {
+		if k.op == "ps" {
+			stexts = append(stexts, k.in)
+		}
+	}
+	nMulti := len(stexts) / 8
+	type mcase struct {
+		args   [][]byte
+		inputs []string
+	}
+	multis := make([]mcase, nMulti)
+	for i := range multis {
+		m := mcase{args: [][]byte{[]byte("1"), []byte("0")}}
+		for j := 0; j < 2+c.Rng.Intn(2); j++ {
+			t := gen.Pick(c.Rng, stexts)
+			m.inputs = append(m.inputs, t)
+			m.args = append(m.args, []byte(gen.Pick(c.Rng, []string{"0", "0", "1"})+t))
+		}
+		multis[i] = m
+	}
+	c.Pool.ParFor(nMulti, func(w, i int) {
+		m := multis[i]
+		impl := c.Impl(w, "pss", m.args...)
+		v, cur, none := c.Tie(w, "pss", impl, m.args...)
+		if v == core.Violation {
+			c.Report(w, "pss", thm, m.args, impl, cur, none)
+		}
+		if strings.HasPrefix(impl, "ok") {
+			if msg := positionsTruthful(impl, m.inputs, fp1); msg != "" {
+				c.ReportOracle("position-not-truthful", map[string]interface{}{"op": "pss", "args": hexArgs(m.args), "sources": m.inputs, "problem": msg})
+			}
+		}
+	})
+	c.Count("multi_source_documents", int64(nMulti))
 	// lexical family: block strings and line terminators. Every block-string body over
 	// {SP,TAB,LF,CR,a,"} followed by a token on the closing line and one on the next line, and
 	// random mixes of tokens, comments, Unicode and CR/LF/CRLF: token positions against the
@@ -193,6 +253,70 @@ func runC04(c *core.Ctx) {
 		}
 	})
 	c.Count("lexical_inputs", int64(len(lexInputs)))
+	// ---- locations attached to schema and validation errors: every one of them, in the file the
+	// error names (multi-file schemas with one seeded fault; typed documents with seeded faults)
+	nSch := 3000
+	if !c.Quick {
+		nSch = 60000
+	}
+	type lc struct{ srcs []string }
+	loads := make([]lc, nSch)
+	for i := range loads {
+		sc := gen.NewSchema(gen.New(c.Rng.U64()))
+		gen.Pick(c.Rng, gen.SchemaFaults).Apply(c.Rng, sc)
+		loads[i] = lc{partition(c.Rng, sc.Chunks(), 1+c.Rng.Intn(3))}
+	}
+	var nLoadErr, nValErr int64
+	c.Pool.ParFor(nSch, func(w, i int) {
+		files := map[string]string{}
+		var ss []*ast.Source
+		for j, t := range loads[i].srcs {
+			name := fmt.Sprintf("s%d.graphql", j+1)
+			files[name] = t
+			ss = append(ss, &ast.Source{Name: name, Input: t})
+		}
+		_, err := gqlparser.LoadSchema(ss...)
+		ge, ok := err.(*gqlerror.Error)
+		if err == nil || !ok {
+			return
+		}
+		file, _ := ge.Extensions["file"].(string)
+		src, known := files[file]
+		if !known {
+			return // the prelude, or no file: C20's business
+		}
+		atomic.AddInt64(&nLoadErr, 1)
+		for _, l := range ge.Locations {
+			if msg := locationProblem(src, l.Line, l.Column, fp1); msg != "" {
+				c.ReportOracle("schema-error-location-not-truthful", map[string]interface{}{"sources": loads[i].srcs, "error": ge.Message, "file": file, "problem": msg})
+				return
+			}
+		}
+	})
+	vcases := GenValidationCases(c, nSch/60+4, 20, nil)
+	c.Pool.ParFor(len(vcases), func(w, i int) {
+		k := vcases[i]
+		sch, err := loadImpl(k.Srcs...)
+		if err != nil {
+			return
+		}
+		doc, perr := parser.ParseQuery(&ast.Source{Name: "q.graphql", Input: k.Query})
+		if perr != nil {
+			return
+		}
+		for _, e := range validator.Validate(sch, doc) {
+			atomic.AddInt64(&nValErr, 1)
+			for _, l := range e.Locations {
+				if msg := locationProblem(k.Query, l.Line, l.Column, fp1); msg != "" {
+					c.ReportOracle("validation-error-location-not-truthful", map[string]interface{}{"schema": k.Srcs, "query": k.Query, "error": e.Message, "rule": e.Rule, "problem": msg})
+					return
+				}
+			}
+		}
+	})
+	c.Count("schema_errors_located", nLoadErr)
+	c.Count("validation_errors_located", nValErr)
+	c.Evals += int64(nSch) + int64(len(vcases))
 	c.Evals += int64(len(cases))*2 + int64(len(lexInputs))
 	c.Programs = int64(len(cases))
 	c.Count("documents_with_random_layout", int64(len(cases)))
